@@ -45,7 +45,20 @@ pub const CONFIGS: [&str; 8] = [
 // must disappear is covered by variant 8 (see known findings)
 pub const CONFIG_TOP_FILTER: &str = r#"{ rules: ["remove_comments"], skip_files: "**/b.lua" }"#;
 
+/// marker of a content version that cannot be processed (k = 8: syntax error / invalid data,
+/// k = 9: a require of a module that does not exist — fails only under a bundling configuration)
+const BROKEN: &str = "BROKEN-CONTENT";
+
 fn content(path: &str, k: usize) -> String {
+    if k >= 8 {
+        if path.ends_with(".json") {
+            return format!("{{ \"{BROKEN}\": ");
+        }
+        if k == 8 {
+            return format!("-- {BROKEN} v{k}\nlocal = = 1\n");
+        }
+        return format!("-- {BROKEN} v{k}\nlocal missing = require(\"./does_not_exist\")\n{}", content(path, 1));
+    }
     match path {
         "src/main.lua" => format!(
             "-- main v{k}\nlocal x = require(\"./lib/x\")\nlocal y = require(\"./lib/y\")\nlocal d = require(\"./data.json\")\nlocal z = require(\"../ext/z\")\ndo end\nprint(x, y, d, z, GA, {k})\n"
@@ -124,6 +137,11 @@ pub fn alphabet(with_top_filter: bool) -> Vec<Op> {
         w("ext/z.lua", 1, false),
         w("src/data.json", 1, false),
         w("src/new.lua", 1, false),
+        // edits that break a file or a bundled dependency (passes made while one is present are
+        // only required not to panic; the comparison resumes once every file is healthy again)
+        w("src/lib/y.lua", 9, false),
+        w("src/a.lua", 8, false),
+        w("src/data.json", 8, false),
         w("src/sub/deep/more/n.lua", 1, true),
         Op::RemoveFile { path: "src/a.lua".into() },
         Op::RemoveFile { path: "src/sub/deep/c.luau".into() },
@@ -267,6 +285,15 @@ impl World {
             }
             Op::Process => {
                 let opts = options(&root2);
+                if self.has_broken_input() {
+                    // errors are expected; only a panic is a failure here
+                    if let Some(tree) = self.tree.as_mut() {
+                        let _ = tree.process(&self.resources, opts);
+                    } else if let Ok(t) = darklua_core::process(&self.resources, opts) {
+                        self.tree = Some(t);
+                    }
+                    return Ok(());
+                }
                 if let Some(tree) = self.tree.as_mut() {
                     tree.process(&self.resources, opts).map_err(|e| format!("process returned an error: {}", e))?;
                 } else {
@@ -280,6 +307,10 @@ impl World {
             }
         }
         Ok(())
+    }
+
+    fn has_broken_input(&self) -> bool {
+        self.inputs.values().any(|c| c.contains(BROKEN))
     }
 
     fn out_tree(&self) -> BTreeMap<String, String> {
@@ -338,6 +369,8 @@ fn diff_trees(actual: &BTreeMap<String, String>, expected: &BTreeMap<String, Str
 pub struct HistoryResult {
     pub processes: usize,
     pub nontrivial: bool,
+    /// a comparison was made after a pass that ran while a file was broken
+    pub recovered: bool,
 }
 
 /// run a history on memory resources (root = "") or on a real directory
@@ -350,6 +383,8 @@ pub fn run_history(ops: &[Op], start_config: usize, fs_root: Option<&Path>) -> R
     let mut processes = 0;
     let mut mutated_after_process = false;
     let mut nontrivial = false;
+    let mut broken_passes = 0;
+    let mut recovered = false;
     for (i, op) in ops.iter().enumerate() {
         let r = catch(|| w.apply(op));
         match r {
@@ -366,6 +401,13 @@ pub fn run_history(ops: &[Op], start_config: usize, fs_root: Option<&Path>) -> R
             if mutated_after_process {
                 nontrivial = true;
             }
+            if w.has_broken_input() {
+                broken_passes += 1;
+                continue;
+            }
+            if broken_passes > 0 {
+                recovered = true;
+            }
             let expected = w.fresh_tree()?;
             let actual = w.out_tree();
             if let Some(d) = diff_trees(&actual, &expected) {
@@ -377,7 +419,7 @@ pub fn run_history(ops: &[Op], start_config: usize, fs_root: Option<&Path>) -> R
             }
         }
     }
-    Ok(HistoryResult { processes, nontrivial })
+    Ok(HistoryResult { processes, nontrivial, recovered })
 }
 
 fn check_no_empty_dirs(dir: &Path) -> Result<(), String> {
@@ -412,7 +454,7 @@ fn gen_history(t: &mut Tape, alpha: &[Op]) -> (Vec<Op>, usize) {
         } else {
             let mut op = alpha[t.choose(alpha.len())].clone();
             if let Op::Write { k, also_changed, .. } = &mut op {
-                *k = t.choose(3);
+                *k = [0usize, 1, 2, 0, 1, 2, 1, 8, 9][t.choose(9)];
                 *also_changed = t.bool(100);
             }
             if let Op::RemoveDir { each_file, .. } = &mut op {
@@ -483,7 +525,12 @@ fn run(ctx: &RunCtx) {
         ops.push(Op::Process);
         classify(&ops, st);
         match run_history(&ops, start, None) {
-            Ok(r) => CaseResult::Pass { nontrivial: r.nontrivial.then(|| hash_str(&history_json(&ops, start, false).to_string())) },
+            Ok(r) => {
+                if r.recovered {
+                    st.class("compared_after_a_failed_pass");
+                }
+                CaseResult::Pass { nontrivial: r.nontrivial.then(|| hash_str(&history_json(&ops, start, false).to_string())) }
+            }
             Err(m) => CaseResult::Fail(Failure::new(m, history_json(&ops, start, false))),
         }
     });
@@ -495,7 +542,12 @@ fn run(ctx: &RunCtx) {
         classify(&ops, st);
         st.sample(|| history_json(&ops, start, false));
         match run_history(&ops, start, None) {
-            Ok(r) => CaseResult::Pass { nontrivial: r.nontrivial.then(|| hash_str(&history_json(&ops, start, false).to_string())) },
+            Ok(r) => {
+                if r.recovered {
+                    st.class("compared_after_a_failed_pass");
+                }
+                CaseResult::Pass { nontrivial: r.nontrivial.then(|| hash_str(&history_json(&ops, start, false).to_string())) }
+            }
             Err(m) => CaseResult::Fail(Failure::new(m, history_json(&ops, start, false))),
         }
     });
